@@ -60,7 +60,9 @@ structure Verdict where
   corr : String    -- "agree" | "differ:<detail>"
   spec : String    -- "sat" | "na" | "unsat:<clause>:<class>"
 
-def Verdict.render (v : Verdict) : String := v.corr ++ " | " ++ v.spec
+def oneLine (s : String) : String := String.ofList (s.toList.map fun c => if c == '\n' || c == '\r' then ' ' else c)
+
+def Verdict.render (v : Verdict) : String := oneLine (v.corr.replace " | " " / ") ++ " | " ++ oneLine v.spec
 
 def badInput (why : String) : Verdict := { corr := "differ:bad-input:" ++ why, spec := "na" }
 
